@@ -10,6 +10,7 @@ import (
 	"io"
 	"io/fs"
 	"log"
+	"path/filepath"
 	"sort"
 	"strconv"
 	"strings"
@@ -425,7 +426,22 @@ func CreateTemp(dir, pattern string) (*File, error) {
 func TempDir() string { return "/tmp" }
 
 // Getwd mirrors os.Getwd.
-func Getwd() (string, error) { return "/sim", nil }
+func Getwd() (string, error) {
+	if w == nil || w.F.EnvSeed == 0 {
+		return "/sim", nil
+	}
+	w.EnvReads++
+	return "/work/" + []string{"sim", "calc", "server", "src/github.com/me/proj", "tmp.1234", "my grammar"}[envMix("cwd")%6], nil
+}
+
+// Abs mirrors filepath.Abs (which asks the real OS for the working directory).
+func Abs(path string) (string, error) {
+	if filepath.IsAbs(path) {
+		return filepath.Clean(path), nil
+	}
+	wd, _ := Getwd()
+	return filepath.Join(wd, path), nil
+}
 
 // Chmod mirrors os.Chmod.
 func Chmod(name string, _ fs.FileMode) error {
